@@ -746,3 +746,61 @@ extend('C19', 'Round 8: nothing yields between the bound test of '
        'leave the pool queue through poll() only.')
 extend('C20', 'Round 8: what parse() stores as the body ends in a slice of '
        'its input; no failing search (index / rindex) below parse().')
+
+# rules added in round 9 (DESIGN.md §4 sixth table, §10 Round 9)
+extend('C01', 'Round 9: the per-reply grouping of failed recipients loses '
+       'nobody (= B3); a relay hands back a caught exception only if it is '
+       'a RelayError; log_exception contains no unguarded look-up by a '
+       'computed key; an inline "do I hold a slot" test of _pool_spawn '
+       'must look at every bounded pool.')
+extend('C02', 'Round 9: the policy walk updates no list by a stale '
+       'position (= P5) and every envelope goes through every policy '
+       '(= P1).')
+extend('C03', 'Round 9: the kind the queue passes to '
+       'set_recipients_delivered supports what the backends do with it '
+       '(= R1.5; the list + set defect D13 is recorded under C03 too).')
+extend('C04', 'Round 9: enqueue() joins the greenlet that writes (= R2.6); '
+       'no Unpickler sub-class with its own find_class in the storage '
+       'modules.')
+extend('C05', 'Round 9: find() results are judged against -1; the end '
+       'marker is matched on the line as stored in self.lines, not on the '
+       'caller\'s fragment; a generator of the sender reads no attribute '
+       'its creator assigns.', 'reaching definitions over the inlined CFG')
+extend('C06', 'Round 9: the limit handed to DataReader is the advertised '
+       'SIZE parameter only; no capture group of the SMTP patterns stands '
+       'under a repetition.', 'regex syntax-tree walk')
+extend('C07', 'Round 9: steps handle() starts on its own initiative cannot '
+       'be spelled as a verb; StopIteration is not raised inside a '
+       'generator; per-recipient state of the edge session is set anew '
+       'where MAIL binds a fresh envelope.')
+extend('C08', 'Round 9: server-initiated steps are no verbs (= R7.11); a '
+       'decoded SASL response is never tested for truth.')
+extend('C09', 'Round 9: one raw read per refill (= F11).')
+extend('C10', 'Round 9: a verdict on a reply is given on whole lines only '
+       '(= W12); a command method puts at most one command on the wire.',
+       'event counting over the inlined CFG')
+extend('C11', 'Round 9: a connection is re-used only after the clean-up '
+       'RSET was answered (= L7); an advertised extension parameter is '
+       'converted to a number only under try; the "no usable records" '
+       'verdict is reached on the cached answer, not on a narrowed list.')
+extend('C12', 'Round 9: flush() takes one snapshot of the timetable (the '
+       'take-out is not inside a loop over the live timetable); the '
+       'deferral test of _pool_spawn looks at every bounded pool.')
+extend('C13', 'Round 9: BytesFormat renders with no lossy error handler; '
+       'no recipient is looked up by position after '
+       'set_recipients_delivered may have run.',
+       'may-event analysis over the inlined CFG')
+extend('C14', 'Round 9: no lazy sequence (map / filter / generator) bound '
+       'under `with Timeout` is first consumed after the block.')
+extend('C15', 'Round 9: AioFile.dump advances by what was written (= R4.1); '
+       'a redis pipeline object is never kept in an attribute.')
+extend('C16', 'Round 9: the helper-return shape of Forward.apply is read '
+       '(an unmatched recipient comes back as it went in); no id() keys in '
+       'the queue and the policies.')
+extend('C17', 'Round 9: line data is never compared by identity in the '
+       'reply / command writers and readers.')
+extend('C18', 'Round 9: split() of header text names its separator; the '
+       'address handed to the wrapped handler is the parser\'s result or '
+       'the invalid address.', 'reaching definitions')
+extend('C19', 'Round 9: the respawn of _remove_client is not conditioned '
+       'on the state of the exiting client.')
